@@ -1,28 +1,35 @@
 #!/usr/bin/env python3
-"""usage: negtable.py <matrix_neg.txt> : rewrites the negative-control table in DESIGN.md (between NEGTABLE markers)"""
-import glob, os, re, sys
-res = {}
-for l in open(sys.argv[1]):
-    parts = l.split()
-    if parts:
-        res[parts[0]] = {kv.split('=')[0]: int(kv.split('=')[1]) for kv in parts[1:]}
+"""Rewrites the negative-control table in DESIGN.md (between NEGTABLE markers) from the thorough-tier evidence:
+for every control, which checks re-applied it (it touches a package they analyse) and what they said."""
+import glob, json, os, re
+per = {}
+for f in sorted(glob.glob('/verif/evidence/C*.json')):
+    e = json.load(open(f))
+    cid = e['property_id']
+    nc = (e.get('coverage') or {}).get('negative_controls') or {}
+    for r in nc.get('results') or []:
+        per.setdefault(r['control'], {})[cid] = r['result']
 rows = []
-nsilent = 0
+nsilent = nrun = 0
 for d in sorted(glob.glob('/verif/negctl/*/')):
     name = os.path.basename(d.rstrip('/'))
     patch = open(d + 'patch.diff').read()
     files = sorted(set(re.findall(r'^\+\+\+ b/(\S+)', patch, re.M)))
-    funcs = sorted(set(re.findall(r'^@@.*@@ func (?:\([^)]*\) )?(\w+)', patch, re.M)))
-    r = res.get(name)
-    if r is None:
-        out = 'not run'
+    r = per.get(name, {})
+    bad = sorted(k for k, v in r.items() if v != 'silent' and not str(v).startswith('skipped'))
+    ran = sorted(k for k, v in r.items() if not str(v).startswith('skipped'))
+    if not ran:
+        out = 'touches no analysed package'
+    elif bad:
+        out = 'NOT silent: ' + ', '.join('%s (%s)' % (k, str(r[k])[:40]) for k in bad)
+        nrun += 1
     else:
-        bad = sorted(k for k, v in r.items() if v != 0)
-        out = 'silent (20/20)' if not bad else 'NOT silent: ' + ', '.join(bad)
-        nsilent += 0 if bad else 1
-    rows.append('| %s | %s | %s | %s |' % (name, ', '.join(files), ', '.join(funcs[:4]) or '-', out))
-table = ['%d behaviour-preserving refactorings; all 20 checks silent on %d of them.' % (len(rows), nsilent), '',
-         '| control | files changed | functions (hunk context) | all 20 checks |', '|---|---|---|---|'] + rows
+        out = 'silent'
+        nrun += 1
+        nsilent += 1
+    rows.append('| %s | %s | %s | %s |' % (name, ', '.join(files), ', '.join(ran) or '-', out))
+table = ['%d behaviour-preserving refactorings; %d are re-applied by at least one check in the thorough tier; all re-applying checks are silent on %d of them.' % (len(rows), nrun, nsilent), '',
+         '| control | files changed | checks that re-apply it | result |', '|---|---|---|---|'] + rows
 p = '/verif/DESIGN.md'
 s = open(p).read()
 s = re.sub(r'<!-- NEGTABLE BEGIN -->.*<!-- NEGTABLE END -->', '<!-- NEGTABLE BEGIN -->\n' + '\n'.join(table) + '\n<!-- NEGTABLE END -->', s, flags=re.S)
